@@ -54,23 +54,98 @@ theorem mem_removeTxts (pn : Nat) (d : List DFile) (g : DFile) :
     g ∈ removeTxts pn d ↔ g ∈ d ∧ g ≠ .txt pn 0 ∧ g ≠ .txt pn 1 ∧ g ≠ .txt pn 2 := by
   simp [removeTxts, List.mem_filter]
 
-/-! ### `delHead` -/
+/-! ### `delHeadCore` -/
 
-/-- everything but disk, dirs and the queue is untouched; the queue keeps or loses its head;
-    only files of the head path disappear -/
-theorem delHead_frame (s : St) :
-    (delHead s).1.n = s.n ∧ (delHead s).1.delOld = s.delOld ∧ (delHead s).1.delAll = s.delAll ∧
-    (delHead s).1.trajNum = s.trajNum ∧ (delHead s).1.live = s.live ∧ (delHead s).1.trajData = s.trajData ∧
-    (delHead s).1.restart = s.restart ∧ (delHead s).1.pending = s.pending ∧ (delHead s).1.cnt = s.cnt ∧
-    (delHead s).1.txt = s.txt := by
-  unfold delHead
-  repeat' split
-  all_goals simp
+theorem delHeadCore_disk_sub (da : Bool) (olds : List (Nat × List String)) (disk : List DFile) (dirs : List DDir)
+    (g : DFile) : g ∈ (delHeadCore da olds disk dirs).2.1 → g ∈ disk := by
+  unfold delHeadCore
+  split
+  · exact id
+  · dsimp only
+    split
+    · exact removeAll_sub _ _ g
+    · split
+      · split <;> (intro h; exact removeAll_sub _ _ g ((mem_removeTxts _ _ _).mp h).1)
+      · exact removeAll_sub _ _ g
 
-theorem delHead_disk_sub (s : St) (g : DFile) : g ∈ (delHead s).1.disk → g ∈ s.disk := by
-  unfold delHead
-  repeat' split
-  all_goals (try rename_i hr) <;> intro h <;> simp_all [mem_removeTxts]
-  all_goals sorry
+/-- only files of the head path disappear -/
+theorem delHeadCore_removed (da : Bool) (olds : List (Nat × List String)) (disk : List DFile) (dirs : List DDir)
+    (g : DFile) (hg : g ∈ disk) (hn : g ∉ (delHeadCore da olds disk dirs).2.1) :
+    ∃ pd adr rest, olds = (pd, adr) :: rest ∧ g.pn = pd := by
+  unfold delHeadCore at hn
+  split at hn
+  · exact absurd hg hn
+  · rename_i pd adr rest
+    refine ⟨pd, adr, rest, rfl, ?_⟩
+    have key : ∀ d', (∀ x, x ∈ disk → x ∉ List.map (DFile.acc pd) adr → x ∈ d') → g ∉ removeTxts pd d' → g.pn = pd := by
+      intro d' hd' hnn
+      by_cases hm : g ∈ List.map (DFile.acc pd) adr
+      · obtain ⟨a, _, rfl⟩ := List.mem_map.mp hm
+        rfl
+      · have := hd' g hg hm
+        rw [mem_removeTxts] at hnn
+        by_cases h0 : g = .txt pd 0
+        · rw [h0]; rfl
+        · by_cases h1 : g = .txt pd 1
+          · rw [h1]; rfl
+          · by_cases h2 : g = .txt pd 2
+            · rw [h2]; rfl
+            · exact absurd ⟨this, h0, h1, h2⟩ hnn
+    have key2 : g ∉ (removeAll (List.map (DFile.acc pd) adr) disk).1 → g.pn = pd := by
+      intro hnn
+      by_cases hm : g ∈ List.map (DFile.acc pd) adr
+      · obtain ⟨a, _, rfl⟩ := List.mem_map.mp hm
+        rfl
+      · exact absurd (removeAll_keeps _ _ g hg hm) hnn
+    dsimp only at hn
+    split at hn
+    · exact key2 hn
+    · split at hn
+      · split at hn <;> exact key _ (fun x hx hxn => removeAll_keeps _ _ x hx hxn) hn
+      · exact key2 hn
+
+/-- on success the head is popped and its files are gone; on failure the queue is unchanged -/
+theorem delHeadCore_ok (da : Bool) (olds : List (Nat × List String)) (disk : List DFile) (dirs : List DDir)
+    (h : (delHeadCore da olds disk dirs).2.2.2 = none) :
+    ∃ pd adr, olds = (pd, adr) :: (delHeadCore da olds disk dirs).1 ∧
+      ∀ a ∈ adr, DFile.acc pd a ∉ (delHeadCore da olds disk dirs).2.1 := by
+  unfold delHeadCore at h ⊢
+  split at h
+  · simp at h
+  · rename_i pd adr rest
+    dsimp only at h ⊢
+    split at h
+    · simp at h
+    · rename_i _ hr
+      split at h
+      · rename_i hda
+        simp only [hda, if_true]
+        split at h
+        · simp at h
+        · rename_i _ hrd
+          refine ⟨pd, adr, rfl, ?_⟩
+          intro a ha hin
+          exact removeAll_gone _ _ hr _ (List.mem_map_of_mem ha) ((mem_removeTxts _ _ _).mp hin).1
+      · rename_i hda
+        simp only [hda]
+        refine ⟨pd, adr, rfl, ?_⟩
+        intro a ha hin
+        exact removeAll_gone _ _ hr _ (List.mem_map_of_mem ha) hin
+
+theorem delHeadCore_err (da : Bool) (olds : List (Nat × List String)) (disk : List DFile) (dirs : List DDir)
+    (h : (delHeadCore da olds disk dirs).2.2.2 ≠ none) : (delHeadCore da olds disk dirs).1 = olds := by
+  unfold delHeadCore at h ⊢
+  split
+  · rfl
+  · dsimp only at h ⊢
+    split
+    · rfl
+    · split
+      · split
+        · rfl
+        · rename_i _ hr hda _ hrd
+          simp [hr, hda, hrd] at h
+      · rename_i _ hr hda
+        simp [hr, hda] at h
 
 end Infretis.Store
